@@ -365,7 +365,9 @@ def matchOps (c : Ctx) : List OpSpec → List Operand → Bool
 def describes (f : Form) (ops : List Operand) (pc : BitVec 64) (w : BitVec 32) : Bool :=
   f.matchesTemplate w.toNat && matchOps { fields := f.fields, w := w.toNat, pc := pc, name := f.name } f.ops ops
 
-/-! ### `mov Rd, #imm` is a pseudo instruction: one to four move-wide words or one ORR (immediate) -/
+/-! ### `mov Rd, #imm` is a pseudo instruction: one to four move-wide words or one ORR (immediate).
+It is judged by what the words do to the destination register (a W-form write zero-extends, so `movn w0, #..` may
+load a 64-bit value with a zero upper half). -/
 
 /-- value in Rd after `orr Rd|SP, ZR, #logical` -/
 def orrImmVal (b64 : Bool) (w : BitVec 32) : Option (BitVec 64) :=
@@ -390,14 +392,14 @@ def describesMovImm (r : Reg) (v : BitVec 64) (words : List (BitVec 32)) : Bool 
     (match gpNumber r false with         -- move wide: Rd = 31 is ZR
      | some rd =>
        let e := execMovSeq (BitVec.ofNat 32 rd) 0xdeadbeefcafef00d#64 [w]
-       e.1 && e.2 == want && (w.getLsbD 31 == b64)
+       e.1 && e.2 == want
      | none => false)
   | ws =>
     match gpNumber r false with
     | some rd =>
       let e1 := execMovSeq (BitVec.ofNat 32 rd) 0xdeadbeefcafef00d#64 ws
       let e2 := execMovSeq (BitVec.ofNat 32 rd) 0x0123456789abcdef#64 ws
-      ws.length ≤ 4 && e1.1 && e1.2 == want && e2.2 == want && ws.all (fun w => w.getLsbD 31 == b64)
+      ws.length ≤ 4 && e1.1 && e1.2 == want && e2.2 == want
     | none => false
 
 /-- `LDR/STR (immediate)` with an offset that the scaled unsigned form cannot hold is assembled as the unscaled
